@@ -67,8 +67,15 @@ type ApiObs struct {
 type SqlObs struct {
 	ReadIn      bool     `json:"read_in"`
 	ReadOut     bool     `json:"read_out"`
+	ReadSel     bool     `json:"read_sel"`
+	ReadUpd     bool     `json:"read_upd"`
 	OrderIn     []int    `json:"order_in"`
 	OrderOut    []int    `json:"order_out"`
+	OrderSel    []int    `json:"order_sel"`
+	OrderUpd    []int    `json:"order_upd"`
+	DistinctSel int      `json:"distinct_sel"`
+	DistinctUpd int      `json:"distinct_upd"`
+	JSONFull    bool     `json:"json_full"`
 	DistinctIn  int      `json:"distinct_in"`
 	DistinctOut int      `json:"distinct_out"`
 	GroupsIn    int      `json:"groups_in"`
@@ -190,9 +197,15 @@ func runAPI(c Case) (*ApiObs, error) {
 
 var sqlTypes = []string{"longtext", "longblob", "json"}
 
-func lit(ty int, b []byte) string {
+// lit is the SQL literal for value b of row id. JSON rows are whole documents
+// (string member k = b, plus a number, a nested array/object, a boolean and null).
+func lit(ty int, b []byte, id int) string {
 	if ty == 2 {
-		return `'{"k": "` + string(b) + `"}'`
+		short := b
+		if len(short) > 10 {
+			short = short[:10]
+		}
+		return fmt.Sprintf(`'{"k": "%s", "n": %d, "a": [1, {"b": null}, "%s"], "t": true}'`, string(b), id, string(short))
 	}
 	return "x'" + hex.EncodeToString(b) + "'"
 }
@@ -214,7 +227,7 @@ func runSQL(c Case) (*SqlObs, error) {
 	if err != nil {
 		return nil, err
 	}
-	o := &SqlObs{ReadIn: true, ReadOut: true, HashSame: true}
+	o := &SqlObs{ReadIn: true, ReadOut: true, ReadSel: true, ReadUpd: true, HashSame: true, JSONFull: true}
 	note := func(f string, a ...any) { o.Notes = append(o.Notes, fmt.Sprintf(f, a...)) }
 	ty := sqlTypes[c.SQLTy]
 	expr := "v"
@@ -240,12 +253,14 @@ func runSQL(c Case) (*SqlObs, error) {
 	}
 	must("create table tin (id int primary key, v " + ty + ")")
 	must("create table tout (id int primary key, v " + ty + padDefs + ")")
+	must("create table tsel (id int primary key, v " + ty + ")")
+	must("create table tupd (id int primary key, v " + ty + padDefs + ")")
 	_ = padCols
 	vals := make([][]byte, len(c.Vals))
 	for i, sp := range c.Vals {
 		vals[i] = sp.expand()
 		id := i + 1
-		must(fmt.Sprintf("insert into tin values (%d, %s)", id, lit(c.SQLTy, vals[i])))
+		must(fmt.Sprintf("insert into tin values (%d, %s)", id, lit(c.SQLTy, vals[i], id)))
 		// neighbours slightly shorter than the value: the value is the largest saver and goes out of band first
 		pl := len(vals[i]) - 1
 		if pl > 1000 {
@@ -255,13 +270,20 @@ func runSQL(c Case) (*SqlObs, error) {
 			pl = 0
 		}
 		pad := "'" + strings.Repeat("p", pl) + "'"
-		q := fmt.Sprintf("insert into tout values (%d, %s", id, lit(c.SQLTy, vals[i]))
+		q := fmt.Sprintf("insert into tout values (%d, %s", id, lit(c.SQLTy, vals[i], id))
+		// tupd: the row starts with a one-byte value (inline) next to the same neighbours, then UPDATE writes the value
+		qu := fmt.Sprintf("insert into tupd values (%d, %s", id, lit(c.SQLTy, []byte("u"), id))
 		for j := 0; j < pads; j++ {
 			q += ", " + pad
+			qu += ", " + pad
 		}
 		must(q + ")")
+		must(qu + ")")
+		must(fmt.Sprintf("update tupd set v = %s where id = %d", lit(c.SQLTy, vals[i], id), id))
 	}
-	for _, t := range []string{"tin", "tout"} {
+	// tsel: filled from storage (values arrive as stored: inline or out of band)
+	must("insert into tsel select id, v from tout")
+	for _, t := range []string{"tin", "tout", "tsel", "tupd"} {
 		r := s.Exec("select id, " + expr + " from " + t + " order by id")
 		ok := r.Err == "" && len(r.Rows) == len(vals)
 		if r.Err != "" {
@@ -281,10 +303,45 @@ func runSQL(c Case) (*SqlObs, error) {
 				}
 			}
 		}
-		if t == "tin" {
+		switch t {
+		case "tin":
 			o.ReadIn = ok
-		} else {
+		case "tout":
 			o.ReadOut = ok
+		case "tsel":
+			o.ReadSel = ok
+		default:
+			o.ReadUpd = ok
+		}
+	}
+	if c.SQLTy == 2 {
+		// whole documents: identical from every table and equal to CAST(literal AS JSON)
+		var first [][]string
+		for _, t := range []string{"tin", "tout", "tsel", "tupd"} {
+			r := s.Exec("select id, v from " + t + " order by id")
+			if r.Err != "" || len(r.Rows) != len(vals) {
+				o.JSONFull = false
+				note("json read %s: %s (%d rows)", t, r.Err, len(r.Rows))
+				continue
+			}
+			if first == nil {
+				first = r.Rows
+				for i := range vals {
+					rc := s.Exec("select cast(" + lit(2, vals[i], i+1) + " as json)")
+					if rc.Err != "" || len(rc.Rows) != 1 || rc.Rows[0][0] != r.Rows[i][1] {
+						o.JSONFull = false
+						note("json doc %d differs from CAST(literal AS JSON): %s", i+1, rc.Err)
+					}
+				}
+				continue
+			}
+			for i := range r.Rows {
+				if r.Rows[i][1] != first[i][1] {
+					o.JSONFull = false
+					note("json doc %d of %s differs from tin", i+1, t)
+					break
+				}
+			}
 		}
 	}
 	ids := func(q string) []int {
@@ -309,6 +366,10 @@ func runSQL(c Case) (*SqlObs, error) {
 	}
 	o.OrderIn = ids("select id from tin order by " + expr + ", id")
 	o.OrderOut = ids("select id from tout order by " + expr + ", id")
+	o.OrderSel = ids("select id from tsel order by " + expr + ", id")
+	o.OrderUpd = ids("select id from tupd order by " + expr + ", id")
+	o.DistinctSel = one("select count(*) from (select distinct " + expr + " as g from tsel) x")
+	o.DistinctUpd = one("select count(*) from (select distinct " + expr + " as g from tupd) x")
 	if c.SQLTy == 1 {
 		// COUNT(DISTINCT blob) fails in the engine on non-UTF-8 bytes whatever the storage form (not this property): use SELECT DISTINCT
 		o.DistinctIn = one("select count(*) from (select distinct v from tin) x")
@@ -351,7 +412,8 @@ func runSQL(c Case) (*SqlObs, error) {
 			}
 			return r.Rows[0][0]
 		}
-		must(fmt.Sprintf("insert into th values (1, %s)", lit(c.SQLTy, vals[i])))
+		// the stored rows carry their own id inside JSON documents: rebuild the literal with that id
+		must(fmt.Sprintf("insert into th values (1, %s)", lit(c.SQLTy, vals[i], i+1)))
 		hs = append(hs, hashOf())
 		must("delete from th")
 		must(fmt.Sprintf("insert into th select 1, v from tout where id = %d", i+1))
@@ -360,10 +422,24 @@ func runSQL(c Case) (*SqlObs, error) {
 		must(fmt.Sprintf("insert into th select 1, v from tin where id = %d", i+1))
 		hs = append(hs, hashOf())
 		must("delete from th")
+		must(fmt.Sprintf("insert into th select 1, v from tupd where id = %d", i+1))
+		hs = append(hs, hashOf())
+		must("delete from th")
+		if c.SQLTy == 2 {
+			must(fmt.Sprintf("insert into th values (1, %s)", lit(c.SQLTy, []byte("u"), i+1)))
+			must(fmt.Sprintf("update th set v = %s where id = 1", lit(c.SQLTy, vals[i], i+1)))
+			hs = append(hs, hashOf())
+			must("delete from th")
+		}
 		if c.SQLTy != 2 {
 			h := len(vals[i]) / 2
-			must(fmt.Sprintf("insert into th values (1, %s)", lit(c.SQLTy, vals[i][:h])))
-			must(fmt.Sprintf("update th set v = concat(v, %s) where id = 1", lit(c.SQLTy, vals[i][h:])))
+			must(fmt.Sprintf("insert into th values (1, %s)", lit(c.SQLTy, vals[i][:h], 1)))
+			must(fmt.Sprintf("update th set v = concat(v, %s) where id = 1", lit(c.SQLTy, vals[i][h:], 1)))
+			hs = append(hs, hashOf())
+			must("delete from th")
+			// UPDATE from a short value to the literal
+			must(fmt.Sprintf("insert into th values (1, %s)", lit(c.SQLTy, []byte("u"), 1)))
+			must(fmt.Sprintf("update th set v = %s where id = 1", lit(c.SQLTy, vals[i], 1)))
 			hs = append(hs, hashOf())
 			must("delete from th")
 		}
